@@ -544,6 +544,11 @@ func (vc *FnVC) keepSet() map[string]bool {
 }
 
 func (vc *FnVC) initGhosts(m *Mem) *Mem {
+	env := vc.newEnv(m, vc.mem0)
+	for _, g := range vc.ct.EntryGhost {
+		m = vc.applyGhost(env, g, m)
+		env.mem = m
+	}
 	return m
 }
 
